@@ -372,7 +372,8 @@ func (d *debouncer) cancel() { lock; if d.timer != nil { d.timer.Stop(); d.timer
 which starts whenever the scheduler pleases (`start`).  `Timer.Stop` removes a timer that has not expired yet; on an
 expired one it does nothing.  With punctual timers and immediately starting goroutines this is the model `dstep` above
 (the check `d.timer == t` always succeeds there).  Here the environment decides when timers expire (at or after their
-deadline) and when the goroutines start. -/
+deadline), when the goroutines make their check and when they call f.  Between the check (under the lock) and the call
+of f the lock is released: a `cancel()` or a newer call can run to completion in that gap (known finding F46). -/
 
 structure DLTimer where
   id : Nat
@@ -382,6 +383,12 @@ structure DLTimer where
   tc : Int
   /-- the timer has expired: its goroutine exists and can no longer be stopped -/
   expired : Bool := false
+  /-- the goroutine has made its check under the lock and was told to go ahead (it has released the lock and is about
+  to call f) -/
+  goAhead : Bool := false
+  /-- ghost: the instant of that check and the most recent `call` / `cancel` event at that moment -/
+  gaT : Int := 0
+  gaLast : Option (Nat × Bool) := none
 deriving Repr, BEq, DecidableEq
 
 structure DLRun where
@@ -390,10 +397,13 @@ structure DLRun where
   id : Nat
   idx : Nat
   tc : Int
-  /-- ghost: position of the `start` event -/
+  /-- ghost: position of the `run` event -/
   «at» : Nat
   /-- ghost: the most recent `call` / `cancel` event (position, was it a call) when the function started -/
   lastAt : Option (Nat × Bool)
+  /-- ghost: the instant of the go-ahead check and the most recent `call` / `cancel` event at that check -/
+  gaT : Int
+  gaLast : Option (Nat × Bool)
 deriving Repr, BEq, DecidableEq
 
 structure DLState where
@@ -414,8 +424,10 @@ inductive DLEv where
   | tick (dt : Nat)
   /-- the runtime expires timer `id` (enabled when it is pending and its deadline has been reached) -/
   | expire (id : Nat)
-  /-- the goroutine created for the expired timer `id` starts -/
-  | start (id : Nat)
+  /-- the goroutine created for the expired timer `id` takes the lock and checks `d.timer == t` -/
+  | check (id : Nat)
+  /-- having been told to go ahead (and having released the lock) the goroutine calls f -/
+  | run (id : Nat)
 deriving Repr, DecidableEq, Inhabited
 
 /-- `d.timer.Stop()`: a timer that has not expired is removed; an expired one is left alone -/
@@ -424,8 +436,9 @@ def stopCur (s : DLState) : List DLTimer :=
   | none => s.timers
   | some c => s.timers.filter fun t => !(t.id == c && !t.expired)
 
-/-- `checked = true`: the repaired code (the goroutine runs f only if its timer is still `d.timer`);
-`checked = false`: the code before the repair (it ran f unconditionally) -/
+/-- `checked = true`: the repaired code (the goroutine goes ahead only if its timer is still `d.timer`);
+`checked = false`: the code before the repair (no check: it always goes ahead).  The check and the call of f are TWO
+steps: the lock is released in between, as in the code. -/
 def dlstep (checked : Bool) (wait : Nat) (s : DLState) (e : DLEv) : DLState :=
   let s1 : DLState := match e with
     | .call =>
@@ -435,14 +448,18 @@ def dlstep (checked : Bool) (wait : Nat) (s : DLState) (e : DLEv) : DLState :=
     | .tick dt => { s with now := s.now + dt }
     | .expire id =>
       { s with timers := s.timers.map fun t => if t.id == id && decide (t.deadline ≤ s.now) then { t with expired := true } else t }
-    | .start id =>
-      match s.timers.find? (fun t => t.id == id && t.expired) with
+    | .check id =>
+      if !checked || s.cur == some id then
+        { s with timers := s.timers.map fun t =>
+            if t.id == id && t.expired && !t.goAhead then { t with goAhead := true, gaT := s.now, gaLast := s.lastEv } else t }
+      else { s with timers := s.timers.filter fun t => !(t.id == id && t.expired && !t.goAhead) }
+    | .run id =>
+      match s.timers.find? (fun t => t.id == id && t.goAhead) with
       | none => s
       | some t =>
-        let rest := s.timers.filter fun t' => !(t'.id == id)
-        if !checked || s.cur == some id then
-          { s with timers := rest, runs := s.runs ++ [{ f := s.now, id := id, idx := t.idx, tc := t.tc, «at» := s.n, lastAt := s.lastEv }] }
-        else { s with timers := rest }
+        { s with timers := s.timers.filter fun t' => !(t'.id == id),
+                 runs := s.runs ++ [{ f := s.now, id := id, idx := t.idx, tc := t.tc, «at» := s.n, lastAt := s.lastEv,
+                                      gaT := t.gaT, gaLast := t.gaLast }] }
   { s1 with n := s1.n + 1 }
 
 def dlrun (checked : Bool) (wait : Nat) (evs : List DLEv) : DLState := evs.foldl (dlstep checked wait) {}
